@@ -24,7 +24,7 @@ CHECKS = {
     "C14": ("c14", {}),
     "C16": ("c16", {}),
     "C13": ("c13", {}),
-    "C15": ("c15", {}),
+    "C15": ("c15", {}), "C19": ("c19", {}),
     "C07": ("c07", {}), "C09": ("c09", {}), "C17": ("c17", {}),
 }
 
